@@ -75,6 +75,9 @@ def spaces(tier, seed):
                 note="quick: the seed's quarter of the corpus; thorough: all"),
         Product("defaults-generated", {"src": ["gen"], "s": range(len(gen)), "li": range(25), "ugo": [False], "dl": ["en", "detected", "other"]}),
         Product("defaults-corpus", {"src": ["corpus"], "s": cor_idx, "li": range(25), "ugo": [False], "dl": ["en", "detected", "other"]}),
+        Product("all-language-pairs-numeric", {"a": range(len(vocab.language_order())), "b": range(len(vocab.language_order())),
+                                               "ns": ["10/03/2015", "03-04-05 10:30"], "ugo": [False, True]},
+                note="every ordered pair of the 205 languages on numeric dates every language accepts: the higher-priority (or first given) language decides"),
         Product("autodetect-reproducible", {"src": ["gen", "corpus"], "s": range(max(len(gen), len(cor)))}),
         Product("region-equals-locale", {"rl": range(len(regional)), "k": range(4)}),
         Product("language-list-with-region", {"rl": range(len(regional)), "other": ["en", "fr"], "pos": [0, 1]}),
@@ -144,6 +147,33 @@ def run_case(sub, c):
         return "bad", True, {"cls": {"form": sub, "kind": problem.split(" %")[0].split(" 'f")[0][:40]}, "expected": ref,
                              "observed": (dd.date_obj, dd.period, dd.locale), "detail": {"string": s, "languages": langs, "region": region, "problem": problem}}
 
+    if sub == "all-language-pairs-numeric":
+        lo = vocab.language_order()
+        if c["a"] == c["b"]:
+            return None
+        la, lb = lo[c["a"]], lo[c["b"]]
+        s = c["ns"]
+        langs = [la, lb]
+        order = langs if c["ugo"] else sorted(langs, key=prio)
+        st = {"RELATIVE_BASE": BASE}
+        o = api.outcome_of(api.gdd, s, langs, None, None, st, None, c["ugo"])
+        if o[0] == "exc":
+            return "bad", True, {"cls": {"form": sub, "kind": "exception:" + o[1]}, "expected": "no exception", "observed": o[1:],
+                                 "detail": {"string": s, "languages": langs}}
+        got = (o[1].date_obj, o[1].period, o[1].locale)
+        exp = None
+        for l in order:
+            r = single(s, l)
+            if r[0] == "exc":
+                return None
+            if r[0] is not None:
+                exp = r
+                break
+        if got == (exp or (None, "day", None)):
+            return "ok", exp is not None, None
+        return "bad", True, {"cls": {"form": sub, "kind": "not the first successful language's result", "ugo": c["ugo"],
+                                     "variant_involved": "-" in la or "-" in lb},
+                             "expected": exp, "observed": got, "detail": {"string": s, "languages": langs, "priority_order": order}}
     lst = gen if c["src"] == "gen" else cor
     if c["s"] >= len(lst):
         return None
